@@ -696,7 +696,7 @@ func (c *c11Case) timeTravel(o c11Out) *Violation {
 }
 
 func c11Gen(r *Rng, tier string, emit func(string), c12 bool) {
-	n := 3000
+	n := 10000
 	if tier == "thorough" {
 		n = 60000
 		if c12 {
